@@ -39,7 +39,9 @@ RULE = (
     "as list/tuple/dict element, object attribute or deep path (rotating); histories: every method that can mutate, "
     "rendered first in an ordinary SandboxedEnvironment and/or plain Environment of the same process (5 orders x 6 "
     "routes x sync/async, run before anything else in the worker) and then judged in the immutable one; assignment "
-    "table: 35 statement forms ({% set %} expression / block / filtered block / tuple forms whose targets name an "
+    "table: about 400 statement forms (sequences of two or three assignment statements on one name - an earlier "
+    "statement that did not run / ran on a real namespace / sits in another branch, loop, macro, block, with or call "
+    "frame, an optional rebinding of the name to the container, then the assignment that must be refused; {% set %} expression / block / filtered block / tuple forms whose targets name an "
     "attribute of a context container directly or through an alias, with, macro parameter or loop variable; rebinding "
     "a namespace name and assigning its attribute in one statement; namespace(container), namespace(container, k=1), "
     "nested namespaces followed by attribute / block / tuple / loop assignments; dict(), cycler, joiner built from the "
@@ -584,6 +586,55 @@ ASSIGN_FORMS = {
     "cycler_items": "{% set cy = cycler(@E@) %}{{ cy.next() }}{{ cy.reset() }}",
     "joiner_sep": "{% set jn = joiner(@E@) %}{{ jn() }}{{ jn() }}",
 }
+# sequences of assignment statements on one name: an earlier statement with the same attribute-target base (which did
+# not run, ran on a real namespace, or sits in another branch / scope), an optional rebinding of the name to the
+# container, then the assignment that must be refused.  @N@ = the name, @E@ = expression reaching the container.
+_SEQ_FIRST = {
+    "if_false": "{% if no %}{% set @N@.a = 1 %}{% endif %}",
+    "if_true_ns": "{% if yes %}{% set @N@.a = 1 %}{% endif %}",
+    "else_untaken": "{% if yes %}x{% else %}{% set @N@.a = 1 %}{% endif %}",
+    "elif_untaken": "{% if yes %}x{% elif yes %}{% set @N@.a = 1 %}{% endif %}",
+    "plain_ns": "{% set @N@.a = 1 %}",
+    "block_ns": "{% set @N@.a %}v{% endset %}",
+    "tuple_ns": "{% set @N@.a, q = 1, 2 %}",
+    "empty_loop": "{% for i in [] %}{% set @N@.a = 1 %}{% endfor %}",
+    "loop_ns": "{% for i in [1] %}{% set @N@.a = i %}{% endfor %}",
+    "twice_ns": "{% set @N@.a = 1 %}{% set @N@.b = 2 %}",
+}
+_SEQ_REBIND = {
+    "set": "{% set @N@ = @E@ %}",
+    "set_tuple": "{% set @N@, q = @E@, 1 %}",
+    "set_in_if": "{% if yes %}{% set @N@ = @E@ %}{% endif %}",
+    "set_block_then_set": "{% set @N@ %}t{% endset %}{% set @N@ = @E@ %}",
+}
+_SEQ_LAST = {
+    "attr": "{% set @N@.y = 2 %}",
+    "attr_existing": "{% set @N@.a = 2 %}",
+    "block": "{% set @N@.y %}w{% endset %}",
+    "block_filter": "{% set @N@.y | upper %}w{% endset %}",
+    "tuple": "{% set q, @N@.y = 1, 2 %}",
+    "in_if": "{% if yes %}{% set @N@.y = 2 %}{% endif %}",
+    "in_else": "{% if no %}x{% else %}{% set @N@.y = 2 %}{% endif %}",
+    "twice": "{% set @N@.y = 2 %}{% set @N@.z = 3 %}",
+}
+for _f, _ft in _SEQ_FIRST.items():
+    for _l, _lt in _SEQ_LAST.items():
+        # (a) the name is the context container itself and the first statement never ran
+        if _f in ("if_false", "else_untaken", "elif_untaken", "empty_loop"):
+            ASSIGN_FORMS["seq_%s__%s" % (_f, _l)] = (_ft + _lt).replace("@N@", "@C@")
+        # (b) the name is a real namespace first, then rebound to the container
+        for _r, _rt in _SEQ_REBIND.items():
+            ASSIGN_FORMS["seq_%s__%s__%s" % (_f, _r, _l)] = ("{% set nq = namespace() %}" + _ft + _rt + _lt).replace("@N@", "nq")
+# the same inside a macro / a block / a loop body (other frames)
+for _w, _wt in {"macro": "{% macro m() %}@B@{% endmacro %}{{ m() }}", "block": "{% block bq %}@B@{% endblock %}",
+                "loop": "{% for j in [1, 2] %}@B@{% endfor %}", "with": "{% with z = 1 %}@B@{% endwith %}",
+                "call": "{% macro m() %}{{ caller() }}{% endmacro %}{% call m() %}@B@{% endcall %}"}.items():
+    ASSIGN_FORMS["seq_in_%s_if_false" % _w] = _wt.replace("@B@", "{% if no %}{% set @C@.a = 1 %}{% endif %}{% set @C@.y = 2 %}")
+    ASSIGN_FORMS["seq_in_%s_rebind" % _w] = _wt.replace(
+        "@B@", "{% set nq = namespace() %}{% set nq.a = 1 %}{% set nq = @E@ %}{% set nq.y = 2 %}")
+    ASSIGN_FORMS["seq_across_%s" % _w] = "{% set nq = namespace() %}{% set nq.a = 1 %}{% set nq = @E@ %}" + _wt.replace(
+        "@B@", "{% set nq.y = 2 %}")
+
 ASSIGN_DATA = {
     "dict": D(("a", 1), ("b", [2])),
     "dict_empty": D(),
@@ -602,7 +653,7 @@ def assign_src(case):
 
 def _assign_ctx(case):
     c = dec(case["data"])
-    return {"c": c, "hd": {"c": c, "x": 1}, "outer": [c, 0], "ob": Holder(c=c)}
+    return {"c": c, "hd": {"c": c, "x": 1}, "outer": [c, 0], "ob": Holder(c=c), "yes": True, "no": False}
 
 
 def check_assign(case):
@@ -629,11 +680,14 @@ def check_assign(case):
 
 
 def assign_cases():
+    k = 0
     for form in sorted(ASSIGN_FORMS):
         for dk in sorted(ASSIGN_DATA):
             for reach in sorted(ASSIGN_REACH):
                 for is_async in (False, True):
-                    for autoescape in (False, True):
+                    k += 1
+                    # the generated statement sequences alternate autoescape instead of crossing it
+                    for autoescape in ((False, True) if not form.startswith("seq_") else (bool(k % 2),)):
                         yield {"kind": "assign", "async": is_async, "autoescape": autoescape, "form": form, "data": ASSIGN_DATA[dk],
                                "reach": reach}
 
